@@ -156,7 +156,8 @@ def L.slice (l : L) (a b : Nat) : List Nat := (l.inp.extract a b).toList
 /-- next(0): none = EOF -/
 def L.next (l : L) : L × Option Nat :=
   if l.pos ≥ l.inp.size then (l, none)
-  else let (r, w) := decodeRune l.inp l.pos; ({ l with width := w, pos := l.pos + w }, some r)
+  else ({ l with width := (decodeRune l.inp l.pos).2, pos := l.pos + (decodeRune l.inp l.pos).2 },
+        some (decodeRune l.inp l.pos).1)
 
 /-- next(n) for n = 1, 2 (peek) -/
 def L.peek (l : L) (n : Nat) : Option Nat :=
@@ -362,29 +363,33 @@ def replaceQuotes : List Nat → List Nat
 /-- state functions return `none` for Go's nil -/
 inductive Next | token | stop deriving DecidableEq
 
-def lexValue (l : L) : L × Next :=
+/-- opener of a string literal: `"` / `'` (escapes on) or `r"` / `r'` (raw);
+    gives (state after the opener, allowEscapes, endToken) -/
+def lexValueOpen (l : L) : L × Bool × Option Nat :=
   let l := { l with start := l.pos }
-  let (l, r) := l.next
+  let r := (l.next).2
+  let l := (l.next).1
   let q := l.peek 1
-  let (l, ae, endTok) :=
-    if r = some 114 && (q = some 34 || q = some 39) then ((l.next).1, false, q) else (l, true, r)
-  let (l, r) := l.next
-  let rec loop (fuel : Nat) (l : L) (r : Option Nat) (escaped : Bool) (lLine lLastnl : Nat) : Option (L × Nat × Nat) :=
-    match fuel with
-    | 0 => none
-    | fuel+1 =>
-      if (!ae && r != endTok) || (ae && (r != endTok || escaped)) then
-        let (lLine, lLastnl) := trackPair r l.pos (lLine, lLastnl)
-        -- a backslash escapes the next character unless it is escaped itself
-        let escaped := !escaped && r = some 92
-        let (l', r') := l.next
-        if r' = none then none   -- error: unexpected end (position info taken from l below)
-        else loop fuel l' r' escaped lLine lLastnl
-      else some (l, lLine, lLastnl)
-  match loop (l.inp.size + 2) l r false l.line l.lastnl with
+  if r = some 114 && (q = some 34 || q = some 39) then ((l.next).1, false, q) else (l, true, r)
+
+/-- the loop of lexValue: `r` is the rune read last; `none` = ran into the end of the input -/
+def lexValueLoop (ae : Bool) (endTok : Option Nat) :
+    Nat → L → Option Nat → Bool → Nat → Nat → Option (L × Nat × Nat)
+  | 0, _, _, _, _, _ => none
+  | fuel+1, l, r, escaped, lLine, lLastnl =>
+    if (!ae && r != endTok) || (ae && (r != endTok || escaped)) then
+      let p := trackPair r l.pos (lLine, lLastnl)
+      -- a backslash escapes the next character unless it is escaped itself
+      let escaped := !escaped && r = some 92
+      if (l.next).2 = none then none   -- error: unexpected end
+      else lexValueLoop ae endTok fuel (l.next).1 (l.next).2 escaped p.1 p.2
+    else some (l, lLine, lLastnl)
+
+/-- what lexValue does after the loop; `l0` is the state before the loop (for the error) -/
+def lexValueClose (ae : Bool) (endTok : Option Nat) (l0 : L) : Option (L × Nat × Nat) → L × Next
   | none =>
     -- the Go code has consumed up to EOF; only the emitted error matters
-    ({ l with pos := l.inp.size }.emitError "Unexpected end while reading string value (unclosed quotes)", Next.stop)
+    ({ l0 with pos := l0.inp.size }.emitError "Unexpected end while reading string value (unclosed quotes)", Next.stop)
   | some (l, lLine, lLastnl) =>
     if ae then
       let val := l.slice (l.start + 1) (l.pos - 1)
@@ -395,38 +400,44 @@ def lexValue (l : L) : L × Next :=
     else
       ({ (l.emit tSTRING (l.slice (l.start + 2) (l.pos - 1)) false false) with line := lLine, lastnl := lLastnl }, Next.token)
 
+def lexValue (l : L) : L × Next :=
+  let o := lexValueOpen l
+  let l1 := (o.1.next).1
+  lexValueClose o.2.1 o.2.2 l1
+    (lexValueLoop o.2.1 o.2.2 (l1.inp.size + 2) l1 (o.1.next).2 false l1.line l1.lastnl)
+
+/-- body of a `#` comment: up to and including the newline, or to the end of the input -/
+def hashLoop : Nat → L → Option Nat → L × Option Nat
+  | 0, l, _ => (l, none)     -- out of fuel (cannot happen: the fuel exceeds the input length): as at the end of input
+  | fuel+1, l, r => if r != some 10 && r != none then hashLoop fuel (l.next).1 (l.next).2 else (l, r)
+
+/-- body of a block comment up to the `*` of the closing `*/`; `none` = unterminated -/
+def blockLoop : Nat → L → Option Nat → Nat → Nat → Option (L × Nat × Nat)
+  | 0, _, _, _, _ => none
+  | fuel+1, l, r, lLine, lLastnl =>
+    if r != some 42 || l.peek 1 != some 47 then
+      let p := trackPair r l.pos (lLine, lLastnl)
+      if (l.next).2 = none then none else blockLoop fuel (l.next).1 (l.next).2 p.1 p.2
+    else some (l, lLine, lLastnl)
+
+def lexCommentHash (l : L) : L × Next :=
+  let l := { l with start := l.pos }
+  let res := hashLoop (l.inp.size + 2) l (some 35)
+  let l := res.1.emit tPOSTCOMMENT (res.1.slice res.1.start res.1.pos) false false
+  if res.2 = none then (l, Next.stop) else (l.hashEnd, Next.token)
+
+def lexCommentBlock (l : L) : L × Next :=
+  let l := (l.next).1                       -- the `*` of the opener
+  let l := { l with start := l.pos }
+  let l1 := (l.next).1
+  match blockLoop (l1.inp.size + 2) l1 (l.next).2 l1.line l1.lastnl with
+  | none => ({ l1 with pos := l1.inp.size }.emitError "Unexpected end while reading comment", Next.stop)
+  | some (l, lLine, lLastnl) =>
+    let l := l.emit tPRECOMMENT (l.slice l.start (l.pos - 1)) false false
+    ({ (l.next).1 with line := lLine, lastnl := lLastnl }, Next.token)   -- consume the final `/`
+
 def lexComment (l : L) : L × Next :=
-  let (l, r) := l.next
-  if r = some 35 then
-    let l := { l with start := l.pos }
-    let rec loop (fuel : Nat) (l : L) (r : Option Nat) : L × Option Nat :=
-      match fuel with
-      | 0 => (l, r)
-      | fuel+1 => if r != some 10 && r != none then let (l, r) := l.next; loop fuel l r else (l, r)
-    let (l, r) := loop (l.inp.size + 2) l r
-    let l := l.emit tPOSTCOMMENT (l.slice l.start l.pos) false false
-    if r = none then (l, Next.stop) else (l.hashEnd, Next.token)
-  else
-    let (l, _) := l.next
-    let lLine := l.line
-    let lLastnl := l.lastnl
-    let l := { l with start := l.pos }
-    let (l, r) := l.next
-    let rec loop2 (fuel : Nat) (l : L) (r : Option Nat) (lLine lLastnl : Nat) : Option (L × Nat × Nat) :=
-      match fuel with
-      | 0 => none
-      | fuel+1 =>
-        if r != some 42 || l.peek 1 != some 47 then
-          let (lLine, lLastnl) := trackPair r l.pos (lLine, lLastnl)
-          let (l', r') := l.next
-          if r' = none then none else loop2 fuel l' r' lLine lLastnl
-        else some (l, lLine, lLastnl)
-    match loop2 (l.inp.size + 2) l r lLine lLastnl with
-    | none => ({ l with pos := l.inp.size }.emitError "Unexpected end while reading comment", Next.stop)
-    | some (l, lLine, lLastnl) =>
-      let l := l.emit tPRECOMMENT (l.slice l.start (l.pos - 1)) false false
-      let (l, _) := l.next
-      ({ l with line := lLine, lastnl := lLastnl }, Next.token)
+  if (l.next).2 = some 35 then lexCommentHash (l.next).1 else lexCommentBlock (l.next).1
 
 def namePattern (s : List Nat) : Bool :=
   match s with
@@ -434,30 +445,40 @@ def namePattern (s : List Nat) : Bool :=
   | c :: cs => ((65 ≤ c && c ≤ 90) || (97 ≤ c && c ≤ 122)) &&
       cs.all fun d => (65 ≤ d && d ≤ 90) || (97 ≤ d && d ≤ 122) || (48 ≤ d && d ≤ 57)
 
+/-- the number test of lexToken: starts with a digit (`^[0-9].*$`; `.` does not match a newline)
+    and strconv.ParseFloat accepts it -/
+def numberCandidate (kc : List Nat) : Bool :=
+  (match kc with | c :: _ => 48 ≤ c && c ≤ 57 | [] => false) && !(kc.contains 10) && validFloat kc
+
+/-- keyword / symbol / identifier starting at `l.start = l.pos` (after the number test failed) -/
+def lexWordText (l : L) : L × Next :=
+  let l := lexTextBlock l
+  let ic := l.slice l.start l.pos
+  let kc := lowerGo ic
+  match (lookupTab keywordBytes kc).orElse (fun _ => lookupTab symbolBytes kc) with
+  | some t => (l.emitToken t, Next.token)
+  | none =>
+    if !namePattern kc then (l.emitError "Cannot parse identifier", Next.stop)
+    else (l.emit tIDENTIFIER ic true false, Next.token)
+
+/-- number / keyword / symbol / identifier token starting at `l.start = l.pos` -/
+def lexWord (l : L) : L × Next :=
+  let l := lexNumberBlock l
+  let kc := lowerGo (l.slice l.start l.pos)
+  if numberCandidate kc then (l.emit tNUMBER kc false false, Next.token)
+  else lexWordText (if kc.length > 0 then l.backup (l.pos - l.start) else l)
+
 def lexToken (l : L) : L × Next :=
   let n1 := l.peek 1
   let n2 := l.peek 2
   -- `return lexComment` / `return lexValue` hand control back to run(), which calls
   -- skipWhiteSpace once more before the state function (this resets skippedNewline)
-  if (n1 = some 47 && n2 = some 42) || n1 = some 35 then lexComment (skipWhiteSpace l).1
+  -- (if that skipWhiteSpace returned false, run() would leave its loop at once)
+  if (n1 = some 47 && n2 = some 42) || n1 = some 35 then
+    if (skipWhiteSpace l).2 then lexComment (skipWhiteSpace l).1 else ((skipWhiteSpace l).1, Next.stop)
   else if (n1 = some 34 || n1 = some 39) || (n1 = some 114 && (n2 = some 34 || n2 = some 39)) then
-    lexValue (skipWhiteSpace l).1
-  else
-    let l := { l with start := l.pos }
-    let l := lexNumberBlock l
-    let kc := lowerGo (l.slice l.start l.pos)
-    let isNum := (match kc with | c :: _ => 48 ≤ c && c ≤ 57 | [] => false) && !(kc.contains 10) && validFloat kc
-    if isNum then (l.emit tNUMBER kc false false, Next.token)
-    else
-      let l := if kc.length > 0 then l.backup (l.pos - l.start) else l
-      let l := lexTextBlock l
-      let ic := l.slice l.start l.pos
-      let kc := lowerGo ic
-      match (lookupTab keywordBytes kc).orElse (fun _ => lookupTab symbolBytes kc) with
-      | some t => (l.emitToken t, Next.token)
-      | none =>
-        if !namePattern kc then (l.emitError "Cannot parse identifier", Next.stop)
-        else (l.emit tIDENTIFIER ic true false, Next.token)
+    if (skipWhiteSpace l).2 then lexValue (skipWhiteSpace l).1 else ((skipWhiteSpace l).1, Next.stop)
+  else lexWord { l with start := l.pos }
 
 /-- (*lexer).run -/
 def lex (input : List Nat) : Array Tok :=
